@@ -120,6 +120,9 @@ func (c *Cluster) metaRowsLocked(s *pb.Scan) (rows []scanRow, table string, key 
 		}
 		var best *Region
 		for _, r := range c.regionsLocked(table) {
+			if r.NotInMeta {
+				continue
+			}
 			if bytes.Compare(r.Start, key) <= 0 {
 				if best == nil || bytes.Compare(r.Start, best.Start) > 0 || (bytes.Equal(r.Start, best.Start) && r.ID > best.ID) {
 					best = r
@@ -137,6 +140,9 @@ func (c *Cluster) metaRowsLocked(s *pb.Scan) (rows []scanRow, table string, key 
 		return nil, table, nil, "unsupported-meta-scan"
 	}
 	for _, r := range c.regionsLocked(table) {
+		if r.NotInMeta {
+			continue
+		}
 		rows = append(rows, scanRow{r.Name, c.metaCells(r)})
 	}
 	return rows, table, nil, "all-regions"
